@@ -1,6 +1,6 @@
 (* Correspondence entry point: one op name + arguments -> canonical observation.
    Extracted to OCaml (Extract.v) and driven by ocaml/driver.ml. *)
-From Ufw Require Import Base.Val Base.Bits Base.Errno Model.Crc Model.ByteBuffer Model.Endpoints Model.Varint Model.Ring Model.Slip.
+From Ufw Require Import Base.Val Base.Bits Base.Errno Model.Crc Model.ByteBuffer Model.Endpoints Model.Varint Model.Ring Model.Slip Model.Lenp.
 Local Open Scope string_scope.
 Local Open Scope N_scope.
 
@@ -229,6 +229,99 @@ Definition run_ep (op : string) (a : list val) : list val :=
     else if String.eqb op "ep.drainaux" then fin4 (sts_drain_aux s k aux)
     else [VS "unknown-op"].
 
+(* ---------------- length prefix (C13) ---------------- *)
+Definition lkind_of (n : N) : lkind :=
+  match n with 0 => LVar | 1 => LOct | 2 => LLe16 | 3 => LLe32 | 4 => LBe16 | _ => LBe32 end.
+Fixpoint triples (l : list N) : list (N * N * N) :=
+  match l with a :: b :: c :: r => (a, b, c) :: triples r | _ => [] end.
+(* chunk list: consecutive slices of one memory block, each with (size, used, offset) *)
+Fixpoint mk_chunks (mem : list N) (ts : list (N * N * N)) : list bbuf :=
+  match ts with
+  | [] => []
+  | (sz, us, off) :: r =>
+      {| bb_mem := firstn (N.to_nat sz) mem; bb_size := sz; bb_used := us; bb_offset := off |}
+      :: mk_chunks (skipn (N.to_nat sz) mem) r
+  end.
+Definition mk_bbuf (mem : list N) (size used offset : N) : bbuf :=
+  {| bb_mem := mem; bb_size := size; bb_used := used; bb_offset := offset |}.
+Definition bbuf_ok (b : bbuf) : bool :=
+  (bb_offset b <=? bb_used b) && (bb_used b <=? bb_size b) && (bb_size b <=? N.of_nat (length (bb_mem b))) && negb (bb_size b =? 0).
+Definition sinkres (r : option (dres * snk)) : list val :=
+  match r with None => [VS "out-of-fuel"] | Some (rc, k') => [vdres rc; VH (k_got k')] end.
+
+Definition run_lenp (op : string) (a : list val) : list val :=
+  let k := lkind_of (argN 0 a) in
+  if String.eqb op "lenp.m2s" then
+    let n := argN 4 a in
+    if (n <=? lk_max k) && (n <=? SSIZE_MAX) && (N.of_nat (length (argH 3 a)) <? n) then [VS "skip"] else
+    sinkres (lenp_memory_to_sink k (mk_snk (argB 1 a) (argLZ 2 a)) (argH 3 a) n)
+  else if String.eqb op "lenp.b2s" then
+    let b := mk_bbuf (argH 3 a) (argN 4 a) (argN 5 a) (argN 6 a) in
+    if negb (bbuf_ok b) then [VS "skip"] else
+    (sinkres (lenp_buffer_to_sink k (mk_snk (argB 1 a) (argLZ 2 a)) b) ++ [VN (bb_offset b)])%list
+  else if String.eqb op "lenp.b2sn" then
+    let b := mk_bbuf (argH 3 a) (argN 4 a) (argN 5 a) (argN 6 a) in
+    if negb (bbuf_ok b) then [VS "skip"] else
+    match lenp_buffer_to_sink_n k (mk_snk (argB 1 a) (argLZ 2 a)) b (argN 7 a) with
+    | None => [VS "out-of-fuel"]
+    | Some (rc, k', b') => [vdres rc; VH (k_got k'); match rc with DOk _ => VN (bb_offset b') | _ => VS "-" end]
+    end
+  else if String.eqb op "lenp.c2s" then
+    let cs := mk_chunks (argH 4 a) (triples (argLN 5 a)) in
+    if negb (forallb bbuf_ok cs) then [VS "skip"] else
+    sinkres (lenp_chunks_to_sink k (mk_snk (argB 1 a) (argLZ 2 a)) (N.to_nat (argN 3 a)) cs)
+  else if String.eqb op "lenp.menc" then
+    let n := argN 2 a in
+    if (n <=? lk_max k) && (n <=? SSIZE_MAX) && (N.of_nat (length (argH 1 a)) <? n) then [VS "skip"] else
+    let '(e, p, pl) := lenp_memory_encode k (argH 1 a) n in
+    match e with Some e => [VS (ename e); VS "-"; VS "-"] | None => [VN 0; VH p; VH pl] end
+  else if String.eqb op "lenp.benc" then
+    let b := mk_bbuf (argH 1 a) (argN 2 a) (argN 3 a) (argN 4 a) in
+    if negb (bbuf_ok b) then [VS "skip"] else
+    let '(e, p, pl) := lenp_buffer_encode k b in
+    match e with Some e => [VS (ename e); VS "-"; VS "-"] | None => [VN 0; VH p; VH pl] end
+  else if String.eqb op "lenp.bencn" then
+    let b := mk_bbuf (argH 1 a) (argN 2 a) (argN 3 a) (argN 4 a) in
+    if negb (bbuf_ok b) then [VS "skip"] else
+    let '(e, p, pl, b') := lenp_buffer_encode_n k b (argN 5 a) in
+    match e with Some e => [VS (ename e); VS "-"; VS "-"; VS "-"] | None => [VN 0; VH p; VH pl; VN (bb_offset b')] end
+  else if String.eqb op "lenp.cuse" then
+    let cs := mk_chunks (argH 2 a) (triples (argLN 3 a)) in
+    if negb (forallb bbuf_ok cs) then [VS "skip"] else
+    let '(e, p) := lenp_chunks_use k (N.to_nat (argN 1 a)) cs in
+    match e with Some e => [VS (ename e); VS "-"] | None => [VN 0; VH p] end
+  else if String.eqb op "lenp.mfs" then
+    (* kind srcoct stream script size count : [count] consecutive frames from one stream *)
+    let total := length (argH 2 a) in
+    (fix go (n : nat) (s : src) : list val :=
+       match n with
+       | O => []
+       | S n' =>
+           match lenp_memory_from_source k s (argN 4 a) with
+           | None => [VS "out-of-fuel"]
+           | Some (DOk c, d, s') => ([VN c; VH d; src_pos total s'] ++ go n' s')%list
+           | Some (DErr e, d, s') => [VS (ename e); VS "-"; VS "-"]
+           end
+       end) (N.to_nat (argN 5 a)) (mk_src (argB 1 a) (argH 2 a) (argLZ 3 a))
+  else if String.eqb op "lenp.bfs" then
+    let b := mk_bbuf (argH 4 a) (argN 5 a) (argN 6 a) (argN 7 a) in
+    if negb (bbuf_ok b) then [VS "skip"] else
+    match lenp_buffer_from_source k (mk_src (argB 1 a) (argH 2 a) (argLZ 3 a)) b with
+    | None => [VS "out-of-fuel"]
+    | Some (DOk c, s', b') => [VN c; VN (bb_used b'); VN (bb_offset b'); VH (bb_mem b')]
+    | Some (DErr e, s', b') =>
+        (* on failure the fields must be unchanged; memory inside the free region is unspecified *)
+        [VS (ename e); VN (bb_used b'); VN (bb_offset b');
+         VH (firstn (N.to_nat (bb_used b)) (bb_mem b))]
+    end
+  else if String.eqb op "lenp.d2s" then
+    let total := length (argH 2 a) in
+    match lenp_decode_source_to_sink k (mk_src (argB 1 a) (argH 2 a) (argLZ 3 a)) (mk_snk (argB 4 a) (argLZ 5 a)) with
+    | None => [VS "out-of-fuel"]
+    | Some (rc, s', k') => [vdres rc; VH (k_got k'); match rc with DOk _ => src_pos total s' | _ => VS "-" end]
+    end
+  else [VS "unknown-op"].
+
 Definition prefix_of (p s : string) : bool := String.prefix p s.
 
 Definition dispatch (op : string) (a : list val) : list val :=
@@ -238,4 +331,5 @@ Definition dispatch (op : string) (a : list val) : list val :=
   else if prefix_of "ring." op then run_ring op a
   else if prefix_of "slip." op then run_slip op a
   else if prefix_of "ep." op then run_ep op a
+  else if prefix_of "lenp." op then run_lenp op a
   else [VS "unknown-op"].
